@@ -117,4 +117,19 @@ theorem mapM_macEncode (s : List Nat) (bs : Bytes) (h : s.mapM macEncode = some 
         simp only [decodeMac, List.map_cons] at d ⊢
         rw [d, macDecode_encode c b hc]
 
+theorem sum_len_double (s : List Nat) : (s.map fun c => lenUtf16 c * 2).sum = 2 * (s.map lenUtf16).sum := by
+  induction s with
+  | nil => simp
+  | cons c r ih => simp only [List.map_cons, List.sum_cons, ih]; omega
+
+theorem mapM_macEncode_some (s : List Nat) (h : s.all (fun c => (macEncode c).isSome) = true) :
+    ∃ bs, s.mapM macEncode = some bs := by
+  induction s with
+  | nil => exact ⟨[], by simp⟩
+  | cons c r ih =>
+    simp only [List.all_cons, Bool.and_eq_true] at h
+    obtain ⟨bs, hb⟩ := ih h.2
+    obtain ⟨b, hc⟩ := Option.isSome_iff_exists.mp h.1
+    exact ⟨b :: bs, by rw [List.mapM_cons]; simp [hc, hb]⟩
+
 end FontVerif.NameStr
